@@ -1,6 +1,7 @@
 import Femio.Driver.Proto
 import Femio.Driver.Mesh
 import Femio.Model.GeomKernels
+import Femio.Model.GeomHistory
 import Femio.Model.Brick
 import Femio.Gen.Tables
 /-! driver commands for C11 (all values exact rationals)
@@ -14,6 +15,9 @@ c11.meshvol <alignById> <mode> <mesh>          -> ok <list (eid (1 <volume> | 0)
 c11.mesharea <alignById> <mode> <mesh>         -> ok <list (eid (1 <den> <list radicand> | 0))>
 c11.meshnormal <alignById> <mode> <mesh>       -> ok <list (eid (1 x y z |c|² | 0))>
 c11.brick   <type> <nx> <ny> <nz> <lx> <ly> <lz> -> ok 1 <list v3> <list (list id)> | ok 0
+c11.seq <alignById> <absInPlace> <shell> <mesh> <list call> -> ok <list step>   call history on one object (Model/GeomHistory)
+        call = (b | m) <mode> <raiseNeg> <retAbs> <explicit> <update>
+        step = v <list (eid value)> | neg | unsup | upderr | nokernel      value = <volume> (solid) | <den> <list radicand> (shell)
 ```
 mode = linear | gaussian | centroid -/
 namespace Femio.C11
@@ -38,7 +42,46 @@ def typeName (ty : Nat) : String :=
   | some s => String.ofList s
   | none => "unknown"
 
+def callP : P Call := do
+  let a ← tok
+  let api ← (match a with | "b" => pure Api.base | "m" => pure Api.metric | _ => failure : P Api)
+  let mo ← modeP; let rn ← bool; let ra ← bool; let ex ← bool; let up ← bool
+  pure ⟨api, mo, ⟨rn, ra⟩, ex, up⟩
+
+def allSome {α : Type} : List (Nat × Option α) → Option (List (Nat × α))
+  | [] => some []
+  | (e, some v) :: t => (allSome t).map ((e, v) :: ·)
+  | (_, none) :: _ => none
+
+def showOut {V : Type} (f : V → String) : Out V → String
+  | .vals v => "v " ++ showList (fun (e, x) => toString e ++ " " ++ f x) v
+  | .negative => "neg"
+  | .unsupported => "unsup"
+  | .updateError => "upderr"
+
+def seqReply {V : Type} (S : Sgn V) (f : V → String) (cfg : HCfg) (mixed supported : Bool)
+    (fresh : Mode → Option (Vals V)) (calls : List Call) : String :=
+  match fresh .linear, fresh .gaussian, fresh .centroid with
+  | some l, some g, some c =>
+    let mi : MeshInfo V := ⟨fun m => match m with | .linear => l | .gaussian => g | .centroid => c, mixed, supported⟩
+    "ok " ++ showList (showOut f) (runCalls cfg S mi calls HState.empty)
+  | _, _, _ => "ok " ++ showList (fun _ => "nokernel") calls
+
 def handle : List String → Option String
+  | "c11.seq" :: rest => do
+    let (ab, ip, shell, m, calls) ← run (do
+      let ab ← bool; let ip ← bool; let sh ← bool; let m ← meshP; let cs ← listOf callP; pure (ab, ip, sh, m, cs)) rest
+    let mixed := m.blocks.length != 1
+    let supported := m.blocks.all fun (ty, _) => typeName ty != "pyr"
+    if shell then
+      some (seqReply areaSgn (fun a => showRat a.den ++ " " ++ showList showRat a.rads) ⟨ip⟩ mixed supported (fun mode =>
+        allSome (assemble ⟨ab⟩ (m.blocks.map fun (ty, es) =>
+          elemMetrics (area (typeName ty) (shellModeInMesh m.blocks.length mode)) m.nodes (es.map fun e => (e.id, e.conn))))) calls)
+    else
+      some (seqReply ratSgn showRat ⟨ip⟩ mixed supported (fun mode =>
+        (allSome (assemble ⟨ab⟩ (m.blocks.map fun (ty, es) =>
+          elemMetrics (volume (typeName ty) mode) m.nodes (es.map fun e => (e.id, e.conn))))).map
+            (fun l => l.map fun (e, v) => (e, v.val))) calls)
   | "c11.vol" :: rest => do
     let (ty, mode, pts) ← run (do let ty ← tok; let m ← modeP; let pts ← listOf v3P; pure (ty, m, pts)) rest
     some ("ok " ++ showVol (volume ty mode pts))
